@@ -31,7 +31,7 @@ ASSUMPTIONS = ['locations of the tasks in both chains (task directory, <config n
                'the configuration is file-based (also a part of a multi-part file or with a namespace argument: regression cases of F14); no leftover <name>_tmp directories with contents in the source']
 TRUSTED = ['modelled, not verified: shutil, pathlib.stat, math.isclose on sizes, the data classes\' exists()/init_persistence()']
 
-KINDS20 = ['json', 'json', 'numpy', 'pandas', 'generated', 'listnp', 'dir', 'continues', 'memory']
+KINDS20 = ['json', 'json', 'numpy', 'pandas', 'generated', 'genempty', 'listnp', 'dir', 'dirlink', 'continues', 'memory']
 SCENARIOS = ['dry', 'real', 'real', 'twice', 'twice', 'dry-real', 'pre', 'foreign']
 
 
@@ -160,7 +160,7 @@ def run_case(ctx, i, root, reqs, metas):
             oloc, kind = loc_of(t, kinds)
             nloc, _ = loc_of(tn, kinds)
             persist = not issubclass(t.data_class, InMemoryData)
-            tasks.append({'name': n, 'persist': persist, 'has_tmp': kind in ('dir', 'continues'), 'is_pd': nloc.endswith('.pd'),
+            tasks.append({'name': n, 'persist': persist, 'has_tmp': kind in ('dir', 'dirlink', 'continues'), 'is_pd': nloc.endswith('.pd'),
                           'dir': t.slugname.replace(':', '/'), 'old': oloc, 'new': nloc, 'kind': kind})
             if n in computed and persist:
                 originals[n] = mod.unwrap(kind, old.tasks[n].value) if kind != 'generated' else mod.unwrap(kind, pl_fresh_value(b, src_dir, n))
